@@ -39,7 +39,7 @@ CLAIMED = {
  "C16": dict(
   level="other",
   technique="static analysis: bit-provenance abstract interpretation of go/ssa (bit vectors of sources, abstract byte buffers with strided cells, if-then-else joins) composing encoder and decoder maps, compared with RFC layout tables; constant propagation over all first octets; numeric engine for the count guard",
-  text="For every value at once (the maps are symbolic in the field/wire bits, not sampled): RT - for Header, ReceptionReport (24-bit loss), RunLengthChunk, CCFB metric block, NACK pair, SLI entry and FIR entry the encoder's map wire bit <- field bit composed with the decoder's map field bit <- wire bit is the identity in both directions; ENC/DEC - both maps equal the RFC layout (offset, width, big-endian order, constant bits); NR - a not-received metric block decodes to zero fields; CNT - Header.Marshal returns nil only with Count <= 31; VER - Header.Unmarshal rejects all 192 first octets whose version is not 2; CHK - every return of the XR chunk accessors selects the RFC 3611 bits and the terminating-null case is a comparison of the whole word with 0. Level other because StatusVectorChunk and RecvDelta are outside the engine (listed as not covered; C13 decides the delta width/scale) and the identity claim is for values that fit their wire width.",
+  text="For every value at once (the maps are symbolic in the field/wire bits, not sampled): RT - for Header, ReceptionReport (24-bit loss), RunLengthChunk, CCFB metric block, NACK pair, SLI entry and FIR entry the encoder's map wire bit <- field bit composed with the decoder's map field bit <- wire bit is the identity in both directions; ENC/DEC - both maps equal the RFC layout (offset, width, big-endian order, constant bits); the StatusVectorChunk decoder is decided too (its constant-trip loops are unrolled: 14 one-bit or 7 two-bit symbols from their RFC positions, per symbol-size alternative); NR - a not-received metric block decodes to zero fields; CNT - Header.Marshal returns nil only with Count <= 31; VER - Header.Unmarshal rejects all 192 first octets whose version is not 2; CHK - every return of the XR chunk accessors selects the RFC 3611 bits and the terminating-null case is a comparison of the whole word with 0. Level other because StatusVectorChunk.Marshal and RecvDelta are outside the engine (listed as not covered; C13 decides the delta width/scale) and the identity claim is for values that fit their wire width.",
   note="Trusted: go/ssa, checker/bits transfer functions, layout tables in props/layout.go written from the RFCs, checker/pe and checker/num for VER/CNT.",
   design="DESIGN.md §2 C16"),
  "C15": dict(
